@@ -505,10 +505,23 @@ pub fn check(run: &Run) -> Value {
     });
     let db_pairs = o.cases;
     total.merge(o);
+    let scs = spell_cases();
+    let o = run_cases(&scs, &|_, c, out| {
+        out.nontrivial += 1;
+        out.executions += 1 + c.spellings.len() as u64;
+        let vs = judge_spell(c);
+        out.outcome(if vs.is_empty() { "db-spellings-ok" } else { "db-spellings-violation" });
+        for (k, w) in vs {
+            out.violation(k, w, || serde_json::to_value(c).unwrap());
+        }
+    });
+    let spell_n = o.cases;
+    total.merge(o);
     total.report(run);
     println!("C08 sweep: doms={} serializations={} outcomes={:?} db-wide default pairs={}", total.cases, total.executions, total.outcomes, db_pairs);
     json!({
         "database_wide_default_fill_pairs": db_pairs,
+        "database_wide_spelling_tuples": spell_n,
         "states": total.cases,
         "transitions": total.executions,
         "traces_validated_against_impl": total.executions,
@@ -518,11 +531,15 @@ pub fn check(run: &Run) -> Value {
         "instance_configurations_per_class": CLASSES.iter().map(|c| (c.to_string(), config_count(c))).collect::<BTreeMap<_, _>>(),
         "samples": total.samples.iter().map(|s| serde_json::from_str::<Value>(s).unwrap()).collect::<Vec<_>>(),
         "exhaustive": true,
-        "rule": "every ordered tuple of 1..N same-class instances (N=3; thorough adds N=4 for the classes with <=12 instance configurations; classes Part, TextLabel, ScreenGui, ZzUnknown), each instance carrying every combination of {absent, each spelling} per logical property of the class menu (Size|size; Color|Color3uint8|BrickColor|brickColor; Font|FontFace; IgnoreGuiInset|ScreenInsets; plain and unknown properties); all sibling orders are distinct tuples",
+        "rule": "every ordered tuple of 1..N same-class instances (N=3; thorough adds N=4 for the classes with <=12 instance configurations; classes Part, TextLabel, ScreenGui, ZzUnknown), each instance carrying every combination of {absent, each spelling} per logical property of the class menu (Size|size; Color|Color3uint8|BrickColor|brickColor; Font|FontFace; IgnoreGuiInset|ScreenInsets; plain and unknown properties); all sibling orders are distinct tuples; database-wide: for every class and every logical property reachable under >= 2 plain names, every ordered pair (declaring class: triple) of instances carrying it under those names - each must show what it shows when written alone",
     })
 }
 
 pub fn replay(case: &Value) -> Vec<(String, String)> {
+    if case.get("spellings").is_some() {
+        let c: CaseSpell = serde_json::from_value(case.clone()).unwrap_or_else(|e| crate::evidence::machinery_failure(&format!("bad replay: {}", e)));
+        return judge_spell(&c);
+    }
     if case.get("prop").is_some() {
         let c: CaseDb = serde_json::from_value(case.clone()).unwrap_or_else(|e| crate::evidence::machinery_failure(&format!("bad replay: {}", e)));
         return judge_db(&c);
@@ -534,4 +551,125 @@ pub fn replay(case: &Value) -> Vec<(String, String)> {
         crate::evidence::machinery_failure("replay gave two different observations");
     }
     a
+}
+
+
+// ---------------------------------------------------------------------------
+// Database-driven spellings: for every class and every logical property the database lets an
+// instance carry under more than one plain (non-migrating) name, two or three same-class
+// instances each carrying it under one of those names with a different value. Oracle: every
+// instance shows what it shows when it is written alone (no table of expected conversions).
+
+#[derive(Clone, Debug, Serialize, Deserialize)]
+pub struct CaseSpell {
+    pub class: String,
+    pub canonical: String,
+    /// spelling carried by each instance, in sibling order
+    pub spellings: Vec<String>,
+}
+
+pub fn spell_cases() -> Vec<CaseSpell> {
+    let d = rbx_reflection_database::get();
+    let mut classes: Vec<String> = d.classes.keys().map(|k| k.to_string()).collect();
+    classes.sort();
+    let mut out = Vec::new();
+    for class in &classes {
+        let mut by_canonical: BTreeMap<String, Vec<String>> = BTreeMap::new();
+        if let Some(chain) = specdb::class_chain(class) {
+            for cc in chain {
+                for p in cc.properties.keys() {
+                    if p.as_ref() == "Name" || p.as_ref() == "UniqueId" {
+                        continue;
+                    }
+                    if crate::c06::declared_type(class, p).is_some() && crate::c06::declared_type(class, p) != Some(rbx_types::VariantType::Ref) {
+                        by_canonical.entry(crate::c06::canonical_of(class, p)).or_default().push(p.to_string());
+                    }
+                }
+            }
+        }
+        let declared_here: std::collections::BTreeSet<String> = d.classes[class.as_str()].properties.keys().map(|k| k.to_string()).collect();
+        for (canonical, mut sp) in by_canonical {
+            sp.sort();
+            sp.dedup();
+            if sp.len() < 2 {
+                continue;
+            }
+            for a in &sp {
+                for b in &sp {
+                    out.push(CaseSpell { class: class.clone(), canonical: canonical.clone(), spellings: vec![a.clone(), b.clone()] });
+                    // triples on the class that declares one of the spellings
+                    if sp.len() >= 3 && sp.iter().any(|x| declared_here.contains(x)) {
+                        for c in &sp {
+                            out.push(CaseSpell { class: class.clone(), canonical: canonical.clone(), spellings: vec![a.clone(), b.clone(), c.clone()] });
+                        }
+                    }
+                }
+            }
+        }
+    }
+    out
+}
+
+pub fn judge_spell(c: &CaseSpell) -> Vec<(String, String)> {
+    let mut out = Vec::new();
+    let ty = match crate::c06::declared_type(&c.class, &c.canonical) {
+        Some(t) => t,
+        None => return out,
+    };
+    let alpha = crate::c06::value_alphabet(ty);
+    let mut distinct: Vec<Variant> = Vec::new();
+    for v in alpha {
+        if !distinct.iter().any(|d| r(d) == r(&v)) {
+            distinct.push(v);
+        }
+        if distinct.len() == c.spellings.len() {
+            break;
+        }
+    }
+    if distinct.len() < c.spellings.len() {
+        return out;
+    }
+    let inst = |k: usize| InstanceBuilder::new(c.class.as_str()).with_name(format!("inst{}", k)).with_property(c.spellings[k].as_str(), distinct[k].clone());
+    let shown = |dom: &WeakDom, k: usize| -> Option<Option<String>> {
+        let bytes = serialize(dom).ok()?.ok()?;
+        let d = rbx_binary::from_reader(bytes.as_slice()).ok()?;
+        let kid = *d.root().children().get(k)?;
+        Some(d.get_by_ref(kid)?.properties.get(&c.canonical.as_str().into()).map(r))
+    };
+    let mut alone = Vec::new();
+    for k in 0..c.spellings.len() {
+        let dom = WeakDom::new(InstanceBuilder::new("DataModel").with_child(inst(k)));
+        match crate::evidence::guarded(|| shown(&dom, 0)) {
+            Ok(Some(v)) => alone.push(v),
+            // does not serialize alone: outside the premise
+            _ => return out,
+        }
+    }
+    let mut root = InstanceBuilder::new("DataModel");
+    for k in 0..c.spellings.len() {
+        root = root.with_child(inst(k));
+    }
+    let dom = WeakDom::new(root);
+    for k in 0..c.spellings.len() {
+        match crate::evidence::guarded(|| shown(&dom, k)) {
+            Err((s, m)) => {
+                out.push((format!("c08|panic|{}", crate::evidence::panic_signature(&s, &m)), format!("rbx_binary panicked at {}: {}", s, m)));
+                return out;
+            }
+            Ok(None) => {
+                out.push((format!("c08|spellings|whole-fails|{}", c.canonical), format!("{} instances carrying {} as {:?} serialize alone but not together", c.class, c.canonical, c.spellings)));
+                return out;
+            }
+            Ok(Some(v)) => {
+                if v != alone[k] {
+                    let sibling = (0..c.spellings.len()).any(|j| j != k && alone[j] == v);
+                    out.push((
+                        format!("c08|spellings|own-value|{}|{}", c.canonical, if sibling { "sibling" } else { "other" }),
+                        format!("{} instances carrying {} as {:?}: instance {} shows {:?} together, {:?} when written alone", c.class, c.canonical, c.spellings, k, v, alone[k]),
+                    ));
+                }
+            }
+        }
+    }
+    out
 }
